@@ -186,7 +186,7 @@ class Ctx:
         return os.path.join(REPO, 'libzwerg', tu)
 
     # ---- IR
-    def build_ir(self, name, tus, entries, defs=(), keep=(), opt='-O1', inline_all_but=None):
+    def build_ir(self, name, tus, entries, defs=(), keep=(), opt='-O1', inline_all_but=None, fno_access=True):
         """compile tus with clang, link, internalize to entries(+keep) and dce.
         returns path of the linked .ll"""
         self.gen_sources(need_parser=any(t.startswith('@gen/') for t in tus))
@@ -199,7 +199,7 @@ class Ctx:
             cmd = ['clang++-14'] + self.cxxflags(['-D' + x for x in defs]) + [
                 opt, '-mllvm', '-simplifycfg-sink-common=false', '-mllvm', '-simplifycfg-hoist-common=false',
                 '-fno-inline', '-fno-vectorize', '-fno-slp-vectorize', '-fno-unroll-loops',
-                '-fno-access-control' if tu.startswith('@h/') else '-fno-access-control',
+                ('-fno-access-control' if fno_access else '-fno-strict-aliasing'),
                 '-fno-stack-protector', '-fno-use-cxa-atexit' if False else '-fuse-cxa-atexit',
                 '-Wno-everything', '-c', '-emit-llvm', src, '-o', out]
             rc, o, e, w, _ = sh(cmd, timeout=600)
@@ -365,7 +365,7 @@ class Ctx:
         return res
 
     # ---- native real build (replay)
-    def native_exe(self, name, tus, harness, defs=(), libs=('-ldw', '-lelf', '-ldl')):
+    def native_exe(self, name, tus, harness, defs=(), libs=('-ldw', '-lelf', '-ldl'), fno_access=True):
         """g++ build of harness + real repo TUs + vp_native.c"""
         self.gen_sources(need_parser=any(t.startswith('@gen/') for t in tus))
         d = os.path.join(self.scratch, name + '-native')
@@ -377,7 +377,7 @@ class Ctx:
             if key in self._native_objs:
                 return self._native_objs[key]
             out = os.path.join(d, re.sub(r'[^A-Za-z0-9]', '_', tu) + '.o')
-            cmd = ['g++'] + self.cxxflags(['-D' + x for x in defs]) + ['-O1', '-g', '-fno-access-control', '-fsanitize=address,undefined', '-fno-sanitize-recover=undefined', '-w', '-c', src, '-o', out]
+            cmd = ['g++'] + self.cxxflags(['-D' + x for x in defs]) + ['-O1', '-g', ('-fno-access-control' if fno_access or not tu.startswith('@h/') else '-fno-strict-aliasing'), '-fsanitize=address,undefined', '-fno-sanitize-recover=undefined', '-w', '-c', src, '-o', out]
             # content-addressed object cache (sources + every header of the repo and harness dir + flags)
             ck = None
             if not tu.startswith('@gen/'):
@@ -511,8 +511,9 @@ class Module:
     """one lowered module: repo TUs + harness TU -> C; several entries are checked on it"""
     def __init__(self, ctx, name, tus, harness, entries, stubs=('cxxrt.c', 'vp_cbmc.c', 'ostream_null.c'),
                  overrides=(), defs=(), native_tus=None, native_libs=('-ldl',), support=('@h/support_std.cc',),
-                 native_extra=(), keep=(), traps=(), empties=(), inline=True):
+                 native_extra=(), keep=(), traps=(), empties=(), inline=True, fno_access=True):
         self.inline = inline
+        self.fno_access = fno_access
         self.traps = tuple(traps)
         self.empties = tuple(empties)
         self.ctx = ctx
@@ -554,7 +555,7 @@ class Module:
             return
         ctx = self.ctx
         self.linked = ctx.build_ir(self.name, self.tus + ['@h/' + self.harness] + list(self.support), None,
-                                   defs=tuple(self.defs) + tuple(self.kf_defs), keep=self.keep)
+                                   defs=tuple(self.defs) + tuple(self.kf_defs), keep=self.keep, fno_access=self.fno_access)
 
     def cfile_for(self, entry):
         """internalize to ONE entry, dead-code-eliminate, translate: vtables (hence indirect-call
@@ -599,7 +600,7 @@ class Module:
         if self._exe is None:
             ctx = self.ctx
             self._exe = ctx.native_exe(self.name, self.native_tus + list(self.native_extra), '@h/' + self.harness,
-                                       defs=tuple(self.defs) + tuple(self.kf_defs), libs=self.native_libs)
+                                       defs=tuple(self.defs) + tuple(self.kf_defs), libs=self.native_libs, fno_access=self.fno_access)
         return self._exe
 
     def genc_native_for(self, entry):
